@@ -289,10 +289,21 @@ var $newType = (size, kind, string, named, pkg, exported, constructor) => {
                 typ.ptr.nil.$val = typ.ptr.nil;
                 /* methods for embedded fields */
                 $addMethodSynthesizer(() => {
-                    var synthesizeMethod = (target, m, f) => {
+                    var synthesizeMethod = (target, m, f, ptrRecv) => {
                         if (target.prototype[m.prop] !== undefined) { return; }
                         target.prototype[m.prop] = function(...args) {
-                            var v = this.$val[f.prop];
+                            var self = this.$val;
+                            var v = self[f.prop];
+                            if (ptrRecv && f.typ.kind !== $kindStruct && f.typ.kind !== $kindPtr) {
+                                /* A pointer-receiver method of an embedded non-struct type is
+                                   called with a pointer to the field. */
+                                if (f.typ.kind === $kindArray) {
+                                    v = new ($ptrType(f.typ))(v);
+                                } else {
+                                    v = new ($ptrType(f.typ))(() => { return self[f.prop]; }, x => { self[f.prop] = x; });
+                                }
+                                return v[m.prop](...args);
+                            }
                             if (f.typ === $jsObjectPtr) {
                                 v = new $jsObjectPtr(v);
                             }
@@ -309,7 +320,7 @@ var $newType = (size, kind, string, named, pkg, exported, constructor) => {
                                 synthesizeMethod(typ.ptr, m, f);
                             });
                             $methodSet($ptrType(f.typ)).forEach(m => {
-                                synthesizeMethod(typ.ptr, m, f);
+                                synthesizeMethod(typ.ptr, m, f, true);
                             });
                         }
                     });
